@@ -118,27 +118,45 @@ def sh_iv_player(x, n, scale, v, i):
     return D.interval(float(x), nf * scale, rel_ulps=2 ** (n - 1) + 8, mag=cond / nf + 1e-300, tight=True)
 
 
-def shapley_trace(tid, n, v, partner=None, graph=None):
-    """partner: values of another game of the same size whose all-players computation is consumed in lock-step with this one."""
+def shapley_trace(tid, n, v, partner=None, graph=None, anchor=0.0):
+    """partner: values of another game of the same size whose all-players computation is consumed in lock-step with this one.
+    anchor: the code is run on v + anchor * [player 0 in S] (a huge amount carried by player 0 alone).  By linearity every other player's
+    Shapley value is that of v, and player 0's is that of v plus the anchor -- so the specification works on the small game v while the
+    code sees values of magnitude `anchor` (seed C06-g: marginals lost against large values)."""
     scale = scale_of(v)
     M = max(1.0, max(abs(x) for x in v))
     t = {"tid": tid, "n": n, "kind": "shapley", "scale": scale, "v": D.exact_arr(v, scale), "up": [0] * 2 ** n, "w": [], "useperm": 1 if n <= 6 else 0,
          "sh_all": [], "sh_one": [], "entry_bits": 1, "en": [0, 0], "maxsh": [], "sh_w": [], "exc": "", "mg": [], "lo_after": [], "up_after": [],
          "en_after": [0, 0]}
     try:
-        g = graph if graph is not None else full_game(n, v)
+        w = [x + anchor * (c & 1) for c, x in enumerate(v)] if anchor else v
+        g = graph if graph is not None else full_game(n, w)
         if partner is None:
             allv = list(compute_shapley_value(g))
         else:
             allv = [a for a, _b in zip(compute_shapley_value(g), compute_shapley_value(full_game(n, partner)))]
         onev = [compute_shapley_value_for_player(i, g) for i in range(n)]
-        t["sh_all"] = [sh_iv_player(x, n, scale, v, i) for i, x in enumerate(allv)]
-        t["sh_one"] = [sh_iv_player(x, n, scale, v, i) for i, x in enumerate(onev)]
+        if anchor:
+            # player 0: the anchor is taken off the float result (an exact subtraction of nearby floats), the certified interval is at the
+            # scale of ITS marginals, which contain the anchor
+            def iv(x, i):
+                if i:
+                    return sh_iv_player(x, n, scale, v, i)
+                return D.interval(float(x) - anchor, factorial(n) * scale, rel_ulps=2 ** (n - 1) + 8, mag=2 * anchor, tight=True)
+            t["sh_all"] = [iv(x, i) for i, x in enumerate(allv)]
+            t["sh_one"] = [iv(x, i) for i, x in enumerate(onev)]
+        else:
+            t["sh_all"] = [sh_iv_player(x, n, scale, v, i) for i, x in enumerate(allv)]
+            t["sh_one"] = [sh_iv_player(x, n, scale, v, i) for i, x in enumerate(onev)]
         t["entry_bits"] = int(all(float(a) == float(b) for a, b in zip(allv, onev)))
         again = list(compute_shapley_value(g))                     # a second evaluation on the same object
         t["entry_bits"] &= int(all(float(a) == float(b) for a, b in zip(allv, again)))
         try:
-            t["lo_after"] = D.exact_arr(g.get_values(), scale)      # the game as it is after the computations
+            if anchor:
+                same = [float(x) for x in g.get_values()] == [float(x) for x in w]
+                t["lo_after"] = D.exact_arr(v, scale) if same else [10 ** 7] * 2 ** n
+            else:
+                t["lo_after"] = D.exact_arr(g.get_values(), scale)      # the game as it is after the computations
         except D.DriverError:
             t["lo_after"] = [10 ** 7] * 2 ** n
     except D.DriverError:
@@ -255,11 +273,11 @@ def main():
                     kind = 0
                 if kind == 1:
                     v = [x / 8 for x in v]
-                if j % 6 == 5 and 3 <= n <= 5 and j % 7 != 6:
-                    # one player worth a huge amount on top of a unit-scale INTEGER game: the other players' marginals are tiny against the
-                    # values (n! times the values stays inside TLC's 32-bit integers)
-                    big = float(2 ** (21 if n <= 4 else 19))
-                    v = [float(round(x)) + big * (c & 1) for c, x in enumerate(v)]
+                anchored = j % 6 == 5 and 4 <= n <= 7 and j % 7 != 6
+                if anchored:
+                    # 256ths next to an anchor of 2^44: each value needs 52 bits, a sum of a few dozen of them more than 53 -- nothing is
+                    # exact by accident, while every MARGINAL is an exact small number
+                    v = [(x * 8 if kind == 1 else x) / 256 for x in v]
                     kind = 0
                 elif kind == 2:                           # a null player
                     i = rng.randrange(n)
@@ -290,6 +308,9 @@ def main():
                     graph = GraphCooperativeGame(m)
                     v = [float(x) for x in graph.get_values()]
                     partner = None
+                if anchored and graph is None:
+                    traces.append(shapley_trace(tid, n, v, None, None, anchor=float(2 ** 44)))
+                    continue
                 traces.append(shapley_trace(tid, n, v, partner, graph))
                 # the same OBJECT evaluated again after it was changed through the public API (seed C06-e: a value cached on the object):
                 # a graph game normalised in place (its total weight is a power of two, so the normalised values stay exact), a tabulated
